@@ -48,6 +48,10 @@ var selectorMap = map[string]repl{
 	"github.com/Jigsaw-Code/outline-sdk/transport.TCPDialer": {"simnet", "TCPDialer"},
 	"github.com/Jigsaw-Code/outline-sdk/transport.UDPDialer": {"simnet", "UDPDialer"},
 	"os.ReadFile":          {"simos", "ReadFile"},
+	"os.Exit":              {"simos", "Exit"},
+	"log.Fatal":            {"simos", "Fatal"},
+	"log.Fatalf":           {"simos", "Fatalf"},
+	"log.Fatalln":          {"simos", "Fatalln"},
 	"os/signal.Notify":     {"simos", "Notify"},
 	"os/signal.Stop":       {"simos", "Stop"},
 	"time.Now":             {"simrt", "Now"},
